@@ -407,12 +407,16 @@ def jsonWriteIndent (depth : Int) : Outcome Nat :=
   else .ok depth.toNat
 
 /-- format/json/json.go:113 + encoder.go:226,248 (`e.depth += e.opts.Indent` once per nesting
-    level, in a Go int: the product wraps).  Only `indent > maxIndent` is rejected: a NEGATIVE
-    indent is accepted, and a hugely negative one times the nesting depth wraps around to a
-    hugely positive depth. -/
+    level, in a Go int: the product wraps).  Negative and > 1024 indents are rejected
+    (after `fix: tojson: error on huge indent …` and its follow-up for negative values). -/
 def toJSON (indent : Int) (nesting : Nat) : Outcome Nat :=
-  if indent > maxIndent then .err "indent-range" else jsonWriteIndent (wrap64 (indent * nesting))
+  if indent < 0 || indent > maxIndent then .err "indent-range" else jsonWriteIndent (wrap64 (indent * nesting))
+/-- the original code: no check at all -/
 def toJSONOld (indent : Int) (nesting : Nat) : Outcome Nat := jsonWriteIndent (wrap64 (indent * nesting))
+/-- after the first fix (92d73a3f): only `indent > maxIndent` was rejected — a hugely negative
+    indent times the nesting depth wraps around to a hugely positive depth -/
+def toJSONFix1 (indent : Int) (nesting : Nat) : Outcome Nat :=
+  if indent > maxIndent then .err "indent-range" else jsonWriteIndent (wrap64 (indent * nesting))
 
 /-- format/yaml/yaml.go:73-82: yaml.Encoder.SetIndent panics on a negative value, so it is only
     called for indent >= 0; the emitter itself replaces anything outside 2..9 by 2 -/
@@ -446,12 +450,18 @@ def rawOpts (v : JV) : Opts :=
 
 def clamp (lo hi v : Int) : Int := max lo (min hi v)
 
+/-- interp.go:1062-1072 (line_bytes clamped to 1..4096 since `fix: options: clamp line_bytes to a
+    sane maximum`) -/
 def clampOpts (o : Opts) : Opts :=
   { depth := max 0 o.depth, arrayTruncate := max 0 o.arrayTruncate, stringTruncate := max 0 o.stringTruncate,
-    lineBytes := max 1 o.lineBytes, displayBytes := max 0 o.displayBytes,
+    lineBytes := clamp 1 4096 o.lineBytes, displayBytes := max 0 o.displayBytes,
     addrbase := clamp 2 36 o.addrbase, sizebase := clamp 2 36 o.sizebase }
 
 def optionsFromValue (v : JV) : Opts := clampOpts (rawOpts v)
+
+/-- before that fix: `opts.LineBytes = max(1, opts.LineBytes)`, no upper bound -/
+def clampOptsOld (o : Opts) : Opts := { clampOpts o with lineBytes := max 1 o.lineBytes }
+def optionsFromValueOld (v : JV) : Opts := clampOptsOld (rawOpts v)
 
 /-- strconv.FormatUint / FormatInt panic for a base outside 2..36 -/
 def formatBase (base : Int) : Outcome Unit :=
@@ -464,9 +474,9 @@ def goMod (a b : Int) : Outcome Int :=
   if b == 0 then .panic "runtime error: integer divide by zero" else .ok (a.tmod b)
 
 /-- dump.go:389-398: the hex / ascii column headers are built by a loop over `LineBytes` that
-    appends to a string (quadratic, not interruptible).  OptionsFromValue has no upper clamp for
-    line_bytes, so a huge value never finishes and finally exhausts memory: modelled as
-    `resource` above 2^20 columns (1 MiB lines; fq's default is 16). -/
+    appends to a string (quadratic, not interruptible): a huge line_bytes never finishes and
+    finally exhausts memory — modelled as `resource` above 2^20 columns (1 MiB lines; fq's
+    default is 16, OptionsFromValue now clamps to 4096). -/
 def maxSaneLineBytes : Int := 1048576
 def dumpHeader (lineBytes : Int) : Outcome Unit :=
   if lineBytes > maxSaneLineBytes then .resource "hex header of line_bytes columns" else .ok ()
@@ -521,13 +531,14 @@ def castToBitsOpts (v : JV) : Option ToBitsOpts :=
     | _, _, _ => none
   | _ => none
 
-/-- `_tobits`: the part up to and including the pad arithmetic (what follows — Range, multi
-    reader, Len — returns errors) for an input of `len` bits -/
-def toBits (len : Int) (o : ToBitsOpts) : Outcome Int := tobitsPad o.unit o.padToUnits len
+/-- `_tobits` (binary.go:158-190): after the input converted, only unit 1 and 8 are accepted
+    (the check added for finding tobits-unit-zero); then the pad arithmetic for an input of
+    `len` bits (what follows — Range, multi reader, Len — returns errors) -/
+def toBits (len : Int) (o : ToBitsOpts) : Outcome Int :=
+  if o.unit != 1 && o.unit != 8 then .err "unit-not-supported" else tobitsPad o.unit o.padToUnits len
 
-/-- the repair: reject a zero unit before dividing -/
-def toBitsFixed (len : Int) (o : ToBitsOpts) : Outcome Int :=
-  if o.unit == 0 then .err "unit-zero" else tobitsPad o.unit o.padToUnits len
+/-- before that check: any unit went into the pad arithmetic -/
+def toBitsOld (len : Int) (o : ToBitsOpts) : Outcome Int := tobitsPad o.unit o.padToUnits len
 
 /-! ## Binary.JQValueIndex / JQValueSlice behind gojq's clamping (func.go:1085-1100, 1239-1277) -/
 
